@@ -68,22 +68,35 @@ func init() {
 	wordsT = append([]string{""}, allStrings([]string{"q", "z", "é", "j", "ß", "€", "ũ", "%"}, 1, 2)...)
 	wordsT = append(wordsT, allStrings([]string{"q", "z", "é", "ß"}, 3, 4)...)
 
+	// long names: distances of 2 and 3 decide about a suggestion only for names of five characters and more
+	longNames := allStrings([]string{"q", "z"}, 5, 6)
+	longWords := allStrings([]string{"q", "z"}, 3, 6)
 	body := func(c *explore.Ctx) {
 		names, words := namesQ, wordsQ
 		if c.Thorough {
 			names, words = namesT, wordsT
 		}
-		// name set: strictly increasing indices, size 1..3
+		long := c.Choose(2) == 1
+		if long {
+			names, words = longNames, longWords
+			c.Hit("long-names")
+		}
+		// name set: strictly increasing indices, size 1..3 (1..2 of the long names, all visible)
 		i0 := c.Choose(len(names))
 		set := []string{names[i0]}
 		if k := c.Choose(len(names) - i0); k > 0 {
 			i1 := i0 + k
 			set = append(set, names[i1])
-			if k2 := c.Choose(len(names) - i1); k2 > 0 {
-				set = append(set, names[i1+k2])
+			if !long {
+				if k2 := c.Choose(len(names) - i1); k2 > 0 {
+					set = append(set, names[i1+k2])
+				}
 			}
 		}
-		mask := c.Choose(1 << uint(len(set)))
+		mask := 0
+		if !long {
+			mask = c.Choose(1 << uint(len(set)))
+		}
 		form := c.Choose(len(words) + 1) // 0 = no word at all (missing-command form)
 		history := c.Deviate(3)          // 0 fresh parser; 1 the parser selected a command before; 2 the hidden marks are set after a first failing parse
 		optv := c.Deviate(3)             // 1: PassAfterNonOption is set; 2: PassDoubleDash is set and the word follows the terminator
@@ -241,11 +254,11 @@ func init() {
 		ShardDepth: 2,
 		Body:       body,
 		DevBound:   func(bool) int { return 1 },
-		Rule: "every set of 1..3 command names (all strings of length 1..3 over {q,z,é} and Q, Qz, zQ; thorough adds all of length <= 2 over {q,z,é,j}), every hidden mask, " +
+		Rule: "(plus: every set of one or two of the 96 names of 5-6 characters over {q, z} x every word of 3-6 characters over {q, z}: distances 2 and 3 against names long enough for them to matter) every set of 1..3 command names (all strings of length 1..3 over {q,z,é} and Q, Qz, zQ; thorough adds all of length <= 2 over {q,z,é,j}), every hidden mask, " +
 			"x every word (all strings <= 2 over 7 characters and of length 3 over 4 of them quick / <= 2 over 8 characters and of length 3..4 over 4 of them thorough, drawn from the letters plus the foreign characters ß (2 bytes), € (3 bytes), ũ (2 bytes, same last byte as é) and %, the empty word, and no word at all) x {fresh parser, parser on which an earlier parse selected a command, hidden marks changed after a first diagnosis on the same parser} (or, instead, the first command given the alias ßß, which is no candidate for a suggestion; or PassAfterNonOption set / PassDoubleDash set with the word after the terminator: the diagnosis is the same); " +
 			"oracle = textbook rune Levenshtein + the < 1/2 rule; distinct = distinct (error type, names mentioned, suggestion?) observations",
 		Assumptions:  []string{"names mentioned by a message are read back as maximal runs of the alphabet letters, which do not occur in the message templates", "ties between nearest names: any minimiser accepted", "threshold accepted with the name length in bytes or in characters"},
-		RequiredHits: []string{"missing-command", "suggestion", "enumeration", "used-parser", "other-option-set"},
+		RequiredHits: []string{"long-names", "missing-command", "suggestion", "enumeration", "used-parser", "other-option-set"},
 		Bound:        [2]string{"name sets <=3 of names <=3 over 3 letters; words <=3 over 7 characters", "name sets <=3 of names <=3 over 4 letters; words <=4 over 8 characters"},
 		BudgetS:      [2]int{170, 1500},
 	})
